@@ -1,2 +1,433 @@
--- stub: replaced by the snap engine driver
-def main : IO Unit := pure ()
+/-
+Line-protocol driver for the snap engine (C05).  Reply format `<model>\t<spec>`.
+
+Whole API calls (the calling thread runs alone until the call returns):
+  begin <t> <u|r>            → ok <readTs>
+  get <t> <key>              → val:<hex> | notfound
+  set <t> <key> <val> | del <t> <key>   → ok | readonly
+  scan <t>                   → k=v,k=v (keys ascending) | -
+  commit <t>                 → ok | conflict
+  discard <t>                → ok
+Scheduled calls (a goroutine of the harness, parked before the call):
+  spawn <t> begin <u|r> | spawn <t> commit | spawn <t> discard   → ok
+  step <t>                   run <t> up to its next yield point of utils/watermarker.go
+                             → begin.mid | advance.loop | blocked | return:<result>
+  state                      → nx=<nextTxnTs> td=<txnMark.doneUntil> tl=<txnMark.lastIndex>
+                               rd=<readMark.doneUntil> rl=<readMark.lastIndex> ct=<len committedTxns>
+  seq | sched | stress …     case headers / the free-running validation run (→ ok)
+
+Every op runs micro-steps of `NoKV.Snap.step` — the function the theorems of Props/C05 are about;
+the driver only fixes a scheduling policy.
+
+The *spec* column is the property's own vocabulary: every transaction sees the writes of a fixed
+set of commits, all-or-nothing: the commits that had returned before its `NewTransaction` was
+called, plus some subset of those whose `Commit` was in flight at any moment of that call — and
+never anything else, for as long as it lives.  The subset is narrowed by every answer the
+transaction gets (candidates inconsistent with an earlier answer are dropped), so a commit that
+shows up late, or partially, leaves no candidate.  Commits that overlap on a key are ordered by
+their commit timestamp (taken from the model; the order of two concurrent commits is not a
+C05 matter).
+-/
+import Driver.Lib
+import NoKVModel.Base.Cfg
+import NoKVModel.Snap.Model
+
+open NoKV NoKV.Conc NoKV.Snap Driver
+
+structure TSpec where
+  base : List Nat := []
+  maybe : List Nat := []
+  cands : List (List Nat) := [[]]
+  opened : Bool := false
+
+structure DSt where
+  c : SnapCfg := SnapCfg.good
+  s : St := initSt
+  committing : List Nat := []     -- Commit called (and the transaction has writes)
+  doneOk : List Nat := []         -- Commit returned ok
+  specs : List (Nat × TSpec) := []
+  scheduled : List Nat := []      -- transactions with a scheduled call (spawn …)
+
+def setCfg (c : SnapCfg) (kv : String) : Option SnapCfg :=
+  match kv.splitOn "=" with
+  | [k, v] =>
+    match k with
+    | "wm.beginOrder" =>
+      if v == "countThenPublish" then some { c with wm := { c.wm with countsFirst := true } }
+      else if v == "publishThenCount" then some { c with wm := { c.wm with countsFirst := false } }
+      else none
+    | "wm.tracksZero" => do let b ← boolOfString? v; pure { c with wm := { c.wm with tracksZero := b } }
+    | "wm.holdsAtDone" => do let b ← boolOfString? v; pure { c with wm := { c.wm with holdsAtDone := b } }
+    | "oracle.commitLocked" => do let b ← boolOfString? v; pure { c with commitLocked := b }
+    | "txn.doneAfterApply" => do let b ← boolOfString? v; pure { c with doneAfterApply := b }
+    | "oracle.readWaits" => do let b ← boolOfString? v; pure { c with readWaits := b }
+    | "oracle.readTsClamp" => do let b ← boolOfString? v; pure { c with readClamp := b }
+    | "oracle.readTsOff" => do let n ← natOf? v; pure { c with readTsOff := n }
+    -- shape facts: the model is written for exactly these values
+    | "oracle.commitOrder" => if v == "lock,hasConflict,doneRead,cleanup,add,begin,record" then some c else none
+    | "oracle.readTsOrder" => if v == "load,last,readBegin,wait" then some c else none
+    | "oracle.readTsLocked" => if v == "false" then some c else none
+    | "wm.advanceShape" => if v == "true" then some c else none
+    | _ => none
+  | _ => none
+
+def valStr (v : Option Val) : String :=
+  match v with
+  | some b => "val:" ++ b.toHex
+  | none => "notfound"
+
+def resStr : Res → String
+  | .none => "ok"
+  | .ok => "ok"
+  | .conflict => "conflict"
+
+-- ------------------------------------------------------------------ running threads
+
+def idle (t : Txn) : Bool := t.pc == .active || t.pc == .finished
+
+/-- run `tid` until its current call returns; `false` = blocked / out of fuel -/
+def runCall (c : SnapCfg) (s : St) (tid : Nat) : Nat → St × Bool
+  | 0 => (s, false)
+  | fuel + 1 =>
+    match s.thr tid with
+    | none => (s, false)
+    | some t =>
+      if idle t then (s, true) else
+      match Snap.step c s (.run tid) with
+      | some s' => runCall c s' tid fuel
+      | none => (s, false)
+
+/-- the yield point of the real code the thread stands at, if any -/
+def yieldAt (c : SnapCfg) (s : St) (t : Txn) : Option String :=
+  match t.pc with
+  | .call m w _ =>
+    match (markOf s m).thr w with
+    | some wt =>
+      if thrDone c.wm wt then none else
+      match (WM.progOf c.wm wt.kind)[wt.stage]? with
+      | some .advance => if wt.loc = .start then some "advance.loop" else none
+      | some (.add _ up) => if up && !c.wm.countsFirst then some "begin.mid" else none
+      | some (.setLast _) => if c.wm.countsFirst then some "begin.mid" else none
+      | _ => none
+    | none => none
+  | _ => none
+
+def retStr (t : Txn) : String :=
+  if t.pc == .active then s!"return:ok {t.readTs}" else "return:" ++ resStr t.result
+
+def runToYield (c : SnapCfg) (s : St) (tid : Nat) : Nat → Bool → St × String
+  | 0, _ => (s, "fuel")
+  | fuel + 1, first =>
+    match s.thr tid with
+    | none => (s, "notxn")
+    | some t =>
+      if idle t then (s, if first then "bad-op" else retStr t) else
+      match (if first then none else yieldAt c s t) with
+      | some p => (s, p)
+      | none =>
+        match Snap.step c s (.run tid) with
+        | some s' => runToYield c s' tid fuel false
+        | none => (s, "blocked")
+
+def fuel : Nat := 20000
+
+-- ------------------------------------------------------------------ specification side
+
+def subsets : List Nat → List (List Nat)
+  | [] => [[]]
+  | x :: xs => let r := subsets xs; r ++ r.map (fun l => x :: l)
+
+/-- value of `k` when exactly the commits `ids` are visible (newest commit timestamp wins) -/
+def valUnder (s : St) (ids : List Nat) (k : Key) : Option Val :=
+  (ids.foldl (fun (acc : Nat × Option Val) id =>
+    match s.thr id with
+    | some t =>
+      if t.commitTs > acc.1 then
+        match lookupW t.writes k with
+        | some v => (t.commitTs, v)
+        | none => acc
+      else acc
+    | none => acc) (0, none)).2
+
+def keysUnder (s : St) (ids : List Nat) : List Key :=
+  dedup (ids.foldl (fun acc id =>
+    match s.thr id with
+    | some t => if t.commitTs > 0 then acc ++ t.writes.map (fun kv => kv.1) else acc
+    | none => acc) [])
+
+def insertKey (k : Key) : List Key → List Key
+  | [] => [k]
+  | x :: xs => if Bytes.lt k x then k :: x :: xs else x :: insertKey k xs
+
+def sortKeys (l : List Key) : List Key := l.foldr insertKey []
+
+def renderScan (l : List (Key × Val)) : String :=
+  if l.isEmpty then "-" else ",".intercalate (l.map (fun kv => kv.1.toHex ++ "=" ++ kv.2.toHex))
+
+def ownVal (t : Txn) (k : Key) : Option (Option Val) := if t.update then lookupW t.writes k else none
+
+/-- the scan a transaction with pending writes `t.writes` must see when `ids` are visible -/
+def scanUnder (s : St) (t : Txn) (ids : List Nat) : String :=
+  let ks := sortKeys (dedup (keysUnder s ids ++ (if t.update then t.writes.map (fun kv => kv.1) else [])))
+  renderScan (ks.filterMap (fun k =>
+    let v := match ownVal t k with
+      | some v => v
+      | none => valUnder s ids k
+    v.map (fun b => (k, b))))
+
+def dedupS (l : List String) : List String :=
+  l.foldr (fun k acc => if acc.contains k then acc else k :: acc) []
+
+def getSpec (d : DSt) (tid : Nat) : Option TSpec :=
+  (d.specs.find? (fun p => p.1 = tid)).map (fun p => p.2)
+
+def putSpec (d : DSt) (tid : Nat) (sp : TSpec) : DSt :=
+  { d with specs := (tid, sp) :: d.specs.filter (fun p => p.1 ≠ tid) }
+
+/-- `NewTransaction` is being called for `tid` -/
+def specBeginCall (d : DSt) (tid : Nat) : DSt :=
+  putSpec d tid { base := d.doneOk, maybe := d.committing.filter (fun x => !d.doneOk.contains x) }
+
+/-- `NewTransaction` returned -/
+def specOpened (d : DSt) (tid : Nat) : DSt :=
+  match getSpec d tid with
+  | some sp => if sp.opened then d else putSpec d tid { sp with cands := subsets sp.maybe, opened := true }
+  | none => d
+
+/-- `Commit` is being called for `x` (with writes): in flight for every transaction still inside `NewTransaction` -/
+def specCommitCall (d : DSt) (x : Nat) : DSt :=
+  { d with committing := x :: d.committing,
+           specs := d.specs.map (fun p => if p.2.opened then p else (p.1, { p.2 with maybe := x :: p.2.maybe })) }
+
+def specCommitDone (d : DSt) (x : Nat) : DSt :=
+  match d.s.thr x with
+  | some t => if t.result == .ok && t.commitTs > 0 then { d with doneOk := x :: d.doneOk } else d
+  | none => d
+
+/-- alternatives allowed by the candidates; then keep the candidates that agree with `seen` -/
+def specAnswer (d : DSt) (tid : Nat) (f : List Nat → String) (seen : String) : DSt × String :=
+  match getSpec d tid with
+  | some sp =>
+    if sp.opened then
+      -- a commit that has not even been handed a timestamp when a begun transaction reads cannot
+      -- become visible to it later: candidates containing one are dropped for good
+      let hasTs := fun (id : Nat) =>
+        match d.s.thr id with
+        | some t => t.commitTs > 0
+        | none => false
+      let cands0 := sp.cands.filter (fun cd => cd.all hasTs)
+      let cands := if cands0.isEmpty then sp.cands else cands0
+      let alts := dedupS (cands.map (fun cd => f (sp.base ++ cd)))
+      let keep := cands.filter (fun cd => f (sp.base ++ cd) == seen)
+      -- `notxn`: the harness has not seen this transaction's NewTransaction return (impl != model then)
+      (putSpec d tid { sp with cands := if keep.isEmpty then cands else keep }, "|".intercalate (alts ++ ["notxn"]))
+    else (d, "*")
+  | none => (d, "*")
+
+-- ------------------------------------------------------------------ ops
+
+def stateStr (s : St) : String :=
+  s!"nx={s.nextTs} td={s.tm.doneUntil} tl={s.tm.lastIndex} rd={s.rm.doneUntil} rl={s.rm.lastIndex} ct={s.committed.length}"
+
+def hasWrites (s : St) (tid : Nat) : Bool :=
+  match s.thr tid with
+  | some t => !t.writes.isEmpty
+  | none => false
+
+/-- some scheduled call has not returned: a whole NewTransaction / Commit / Discard could block on
+it (the harness goroutine would hang), so both sides refuse it -/
+def anyLive (d : DSt) : Bool :=
+  d.scheduled.any (fun id =>
+    match d.s.thr id with
+    | some t => !idle t
+    | none => false)
+
+def activeTxn (s : St) (tid : Nat) : Option Txn :=
+  match s.thr tid with
+  | some t => if t.pc == .active then some t else none
+  | none => none
+
+def doSet (d : DSt) (tid : Nat) (k : Key) (v : Option Val) : DSt × String :=
+  match activeTxn d.s tid with
+  | none => (d, "notxn\t*")
+  | some t =>
+    if !t.update then (d, "readonly\treadonly") else
+    match Snap.step d.c d.s (.set tid k v) with
+    | some s' => ({ d with s := s' }, "ok\tok")
+    | none => (d, "bad-op")
+
+/-- `drain`: four rounds over the scheduled calls in spawn order, each run until it returns or blocks -/
+def drainRound (d : DSt) (ids : List Nat) (acc : List String) : DSt × List String :=
+  ids.foldl (fun (st : DSt × List String) id =>
+    let d := st.1
+    match d.s.thr id with
+    | some t =>
+      if idle t then st else
+      let (s1, ok) := runCall d.c d.s id fuel
+      let d := { d with s := s1 }
+      if ok then
+        match s1.thr id with
+        | some t1 =>
+          let r := retStr t1
+          let d := if r.startsWith "return:ok " then specOpened d id else specCommitDone d id
+          (d, st.2 ++ [s!"{id}:" ++ ((r.drop 7).replace " " "_")])
+        | none => (d, st.2)
+      else (d, st.2)
+    | none => st) (d, acc)
+
+def drain (d : DSt) : DSt × String :=
+  let ids := d.scheduled.reverse.foldl (fun (acc : List Nat) id => if acc.contains id then acc else acc ++ [id]) []
+  let (d, acc) := drainRound d ids []
+  let (d, acc) := drainRound d ids acc
+  let (d, acc) := drainRound d ids acc
+  let (d, acc) := drainRound d ids acc
+  (d, " ".intercalate ("drained" :: acc) ++ " " ++ stateStr d.s ++ "\t*")
+
+def stepOp (d : DSt) (toks : List String) : DSt × String :=
+  match toks with
+  | ["drain"] => drain d
+  | ["seq"] => (d, "ok\t*")
+  | ["sched"] => (d, "ok\t*")
+  | "stress" :: _ => (d, "ok\tok")
+  | ["state"] => (d, stateStr d.s ++ "\t*")
+  | ["begin", t, m] =>
+    match natOf? t with
+    | some tid =>
+      if (d.s.thr tid).isSome then (d, "bad-op\tbad-op") else
+      if anyLive d then (d, "unsafe\tunsafe") else
+      match Snap.step d.c d.s (.spawn tid (m == "u")) with
+      | some s1 =>
+        let d := specBeginCall d tid
+        let (s2, ok) := runCall d.c s1 tid fuel
+        let d := { d with s := s2 }
+        if ok then
+          let d := specOpened d tid
+          match s2.thr tid with
+          | some tx => (d, s!"ok {tx.readTs}\tok *")
+          | none => (d, "bad-op")
+        else (d, "blocked\tok *")
+      | none => (d, "bad-op\tbad-op")
+    | none => (d, "bad-op")
+  | ["get", t, k] =>
+    match natOf? t, bytesOf? k with
+    | some tid, some key =>
+      match activeTxn d.s tid with
+      | none => (d, "notxn\t*")
+      | some tx =>
+        let out := valStr (getVal d.s tx key)
+        match Snap.step d.c d.s (.get tid key) with
+        | some s' =>
+          let d := { d with s := s' }
+          match ownVal tx key with
+          | some v => (d, out ++ "\t" ++ valStr v)
+          | none =>
+            let (d, sp) := specAnswer d tid (fun ids => valStr (valUnder d.s ids key)) out
+            (d, out ++ "\t" ++ sp)
+        | none => (d, "bad-op")
+    | _, _ => (d, "bad-op")
+  | ["scan", t] =>
+    match natOf? t with
+    | some tid =>
+      match activeTxn d.s tid with
+      | none => (d, "notxn\t*")
+      | some tx =>
+        let res := scanOut d.s tx
+        let out := renderScan ((sortKeys (res.map (fun kv => kv.1))).filterMap (fun k =>
+          (res.find? (fun kv => kv.1 = k)).map (fun kv => (k, kv.2))))
+        match Snap.step d.c d.s (.scan tid) with
+        | some s' =>
+          let d := { d with s := s' }
+          let (d, sp) := specAnswer d tid (fun ids => scanUnder d.s tx ids) out
+          (d, out ++ "\t" ++ sp)
+        | none => (d, "bad-op")
+    | none => (d, "bad-op")
+  | ["set", t, k, v] =>
+    match natOf? t, bytesOf? k, bytesOf? v with
+    | some tid, some key, some val => doSet d tid key (some val)
+    | _, _, _ => (d, "bad-op")
+  | ["del", t, k] =>
+    match natOf? t, bytesOf? k with
+    | some tid, some key => doSet d tid key none
+    | _, _ => (d, "bad-op")
+  | ["commit", t] =>
+    match natOf? t with
+    | some tid =>
+      match activeTxn d.s tid with
+      | none => (d, "notxn\t*")
+      | some _ =>
+        if anyLive d then (d, "unsafe\tunsafe") else
+        match Snap.step d.c d.s (.commit tid) with
+        | some s1 =>
+          let d := if hasWrites s1 tid then specCommitCall d tid else d
+          let (s2, ok) := runCall d.c s1 tid fuel
+          let d := { d with s := s2 }
+          if ok then
+            let d := specCommitDone d tid
+            match s2.thr tid with
+            | some tx => (d, resStr tx.result ++ "\tok|conflict")
+            | none => (d, "bad-op")
+          else (d, "blocked\tok|conflict")
+        | none => (d, "bad-op")
+    | none => (d, "bad-op")
+  | ["discard", t] =>
+    match natOf? t with
+    | some tid =>
+      match activeTxn d.s tid with
+      | none => (d, "notxn\t*")
+      | some _ =>
+        if anyLive d then (d, "unsafe\tunsafe") else
+        match Snap.step d.c d.s (.discard tid) with
+        | some s1 =>
+          let (s2, ok) := runCall d.c s1 tid fuel
+          ({ d with s := s2 }, if ok then "ok\tok" else "blocked\tok")
+        | none => (d, "bad-op")
+    | none => (d, "bad-op")
+  | ["spawn", t, "begin", m] =>
+    match natOf? t with
+    | some tid =>
+      match Snap.step d.c d.s (.spawn tid (m == "u")) with
+      | some s1 => (specBeginCall { d with s := s1, scheduled := tid :: d.scheduled } tid, "ok\tok")
+      | none => (d, "bad-op\tbad-op")
+    | none => (d, "bad-op")
+  | ["spawn", t, "commit"] =>
+    match natOf? t with
+    | some tid =>
+      match activeTxn d.s tid with
+      | none => (d, "notxn\t*")
+      | some _ =>
+        match Snap.step d.c d.s (.commit tid) with
+        | some s1 =>
+          let d := if hasWrites s1 tid then specCommitCall d tid else d
+          ({ d with s := s1, scheduled := tid :: d.scheduled }, "ok\tok")
+        | none => (d, "bad-op")
+    | none => (d, "bad-op")
+  | ["spawn", t, "discard"] =>
+    match natOf? t with
+    | some tid =>
+      match activeTxn d.s tid with
+      | none => (d, "notxn\t*")
+      | some _ =>
+        match Snap.step d.c d.s (.discard tid) with
+        | some s1 => ({ d with s := s1, scheduled := tid :: d.scheduled }, "ok\tok")
+        | none => (d, "bad-op")
+    | none => (d, "bad-op")
+  | ["step", t] =>
+    match natOf? t with
+    | some tid =>
+      let (s1, p) := runToYield d.c d.s tid fuel true
+      let d := { d with s := s1 }
+      let d := if p.startsWith "return:ok " then specOpened d tid
+               else if p.startsWith "return:" then specCommitDone d tid else d
+      (d, p ++ " " ++ stateStr s1 ++ "\t*")
+    | none => (d, "bad-op")
+  | _ => (d, "bad-op")
+
+def step (d : DSt) (toks : List String) : DSt × String :=
+  match toks with
+  | "cfg" :: kvs =>
+    match kvs.foldlM setCfg d.c with
+    | some c => ({ d with c := c }, "ok")
+    | none => (d, "bad-cfg")
+  | _ => stepOp d toks
+
+def main : IO Unit := Driver.loop ({} : DSt) step
